@@ -460,7 +460,7 @@ def real_cases(ctx, thorough):
                         cases.append(("R", g, 1, [], [], list(toks)))
     n_exh = len(cases)
     # random, well-formed-ish and malformed
-    for _ in range(24000 if thorough else 5000):
+    for _ in range(80000 if thorough else 20000):
         media = rng.random() < 0.4
         g = rng.choice(media_gids if media else value_gids)
         if rng.random() < 0.6:
@@ -612,7 +612,7 @@ def syn_cases(ctx, thorough):
             for tup in itertools.product(alpha, repeat=k):
                 cases.append(("Y", 1, env, [], [], list(tup)))
     n_exh = len(cases)
-    for _ in range(3000 if thorough else 700):
+    for _ in range(10000 if thorough else 2500):
         env = rand_env(rng)
         good = matching_tokens(env) or SYN_TOKS[:4]
         for _ in range(10):
@@ -692,6 +692,13 @@ def api_oracle(w):
             if (a.wellformed, a.mediaText) != (b.wellformed, b.mediaText):
                 return ("MediaList(text) and MediaList(tokens of the same text) differ: a token pushed back with "
                         "tokenizer.push is re-read only when the stream is prodparser.tokenizer's own generator")
+            return None
+        if k == "ctor_tokens_no_raise":
+            cls = getattr(V, w["cls"])
+            try:
+                cls(x for x in [(a, b, 1, 1) for a, b in w["tokens"]])
+            except Exception as e:  # noqa
+                return "%s(tokens) raises %s on a token list that holds only EOF" % (w["cls"], type(e).__name__)
             return None
         if k == "ctor_no_raise":
             cls = getattr(V, w["cls"])
@@ -794,6 +801,8 @@ def run(ctx):
         "exhaustive": {"real": n_exh_r, "synthetic": n_exh_s},
         "implementation_exceptions": {k: len(v) for k, v in crashes.items()},
         "api_statements_evaluated": len(sweep),
+        "translator": json.loads((VERIF / "build" / "prodtrees.json").read_text()) if (VERIF / "build" / "prodtrees.json").exists() else None,
+        "tokens_sane": sum(1 for c in cases for t in c[-1] if not (t[0] == "STRING" and t[1] == "")),
         "trusted_base": TRUSTED,
     }, assumptions=ASSUME, search=search)
 
